@@ -269,7 +269,32 @@ func c09Walk(t *rapid.T, re *rootEnv, n *spec.Node, src reflect.Value, before, a
 		b := bm[e.Attr]
 		hd := holderOf(src, e.Via, false)
 		if !hd.IsValid() {
-			continue // child of a nil nullable embedded message: the statement is silent
+			// child of a nil nullable embedded message: the source holds the zero value for it, so an
+			// attribute that was non-null must not keep its old value (null, or decoding to zero / empty)
+			if present(b) && present(a) {
+				scratch := reflect.New(src.Type()).Elem()
+				zh := holderOf(scratch, e.Via, true)
+				zf := zh.FieldByName(e.Go)
+				if zf.IsValid() && e.F.Oneof == "" {
+					var got interface{}
+					switch {
+					case e.F.Card != "":
+						if c := nfCollection(e, refElemCollection(e, a, zf.Type())); !emptyNF(c) {
+							got = c
+						}
+					case e.F.Kind == spec.KMessage:
+						got = nil // a message child may be rendered as an object of nulls
+					case e.F.Kind == spec.KTime && zf.Kind() != reflect.Ptr:
+						got = nil // by-value time is always rendered
+					default:
+						got = nfScalar(e.F, refElem(e, a, zf.Type()))
+					}
+					if got != nil {
+						fail("embedded-nil-follows-source", e, p, "the embedded message is nil in the source but the attribute keeps %s (before: %s)", tfString(a), tfString(b))
+					}
+				}
+			}
+			continue
 		}
 		var fv reflect.Value
 		if e.F.Oneof != "" {
@@ -350,6 +375,16 @@ func c09Walk(t *rapid.T, re *rootEnv, n *spec.Node, src reflect.Value, before, a
 			}
 		}
 	}
+}
+
+func emptyNF(x interface{}) bool {
+	switch v := x.(type) {
+	case []interface{}:
+		return len(v) == 0
+	case map[string]interface{}:
+		return len(v) == 0
+	}
+	return x == nil
 }
 
 // refElemCollection decodes a known non-null list/map attribute into a Go value of type typ.
